@@ -365,6 +365,9 @@ def projects(draw, prof=None):
                     r['recursive'] = True
     for r in free:
         routine_refs(r, None, 0)
+    # mutual recursion between two FREE functions that declare each other in interface blocks (opt-in profile key:
+    # no draw for the other profiles); both live in one dedicated file, appended after the files are built
+    ffr = bool(p.get('free_fun_cycle') and p['recursion'] and b.chance(3))
 
     if not p['unq_twice']:
         for m in modules:
@@ -397,6 +400,15 @@ def projects(draw, prof=None):
         d, fn = os.path.split(files[0]['path'])
         stem, suf = os.path.splitext(fn)
         files[1]['path'] = os.path.join(d, stem.upper() + suf)
+    if ffr:
+        for a, c, via in (('ffr0', 'ffr1', 'intfb'), ('ffr1', 'ffr0', 'back')):
+            r = _new_routine(a, 'fun')
+            r['recursive'] = True
+            r['intfb'] = [c]
+            r['body'] = [{'k': 'fcall', 'name': c, 'target': f'#{c}', 'via': via}]
+            free.append(r)
+        order = ['f:ffr0', 'f:ffr1'] + order
+        files.append({'path': 'ffr0.f90', 'units': ['f:ffr1', 'f:ffr0']})
     return {'modules': modules, 'free': free, 'order': order, 'files': files,
             'externals': {'calls': ext_calls, 'modules': ext_mods}}
 
@@ -593,6 +605,12 @@ def _render_routine(r, cs, ind, ext_modules=()):
         L.append(f'{i2}{kw("type")}({I(d["type"])}) :: {d["var"]}')
     for fn in r['intfb']:
         L.append(f'{i2}{kw("interface")}')
+        if fn.startswith('ffr'):        # the free functions of the free_fun_cycle shape
+            L.append(f'{i2}  {kw("integer")} {kw("function")} {I(fn)}(xin)')
+            L.append(f'{i2}    {kw("integer")}, {kw("intent")}(in) :: xin')
+            L.append(f'{i2}  {kw("end function")} {I(fn)}')
+            L.append(f'{i2}{kw("end interface")}')
+            continue
         L.append(f'{i2}  {kw("subroutine")} {I(fn)}(x)')
         L.append(f'{i2}    {kw("integer")}, {kw("intent")}(inout) :: x')
         L.append(f'{i2}  {kw("end subroutine")} {I(fn)}')
@@ -615,7 +633,10 @@ def _render_routine(r, cs, ind, ext_modules=()):
             else:
                 L.append(f'{i2}{kw("call")} {I(s["name"])}(x)')
         elif sk == 'fcall':
-            L.append(f'{i2}x = x + {I(s["name"])}(x)')
+            if s.get('via') == 'back':
+                L.append(f'{i2}{kw("if")} (x < -1000) x = x + {I(s["name"])}(x)')
+            else:
+                L.append(f'{i2}x = x + {I(s["name"])}(x)')
         elif sk == 'gcall':
             if s.get('real'):
                 L.append(f'{i2}r = {kw("real")}(x)')
